@@ -57,8 +57,75 @@ def jWord : Word Int → Json
   | .len n => jNat n
   | .val t => jInt t
 
+/-- a source of a session file: `saved` (tokens as Python printed them with '%.18g', header), `delimited`
+(tokens, one list of separators per row), `other` (any text) -/
+def asSrc (j : Json) : R (Src String) := do
+  match (← getStr j "kind") with
+  | "saved" =>
+    let (_, _, img) ← getImg j
+    pure (.saved (← getStr j "header").toList img)
+  | "delimited" =>
+    let (_, _, img) ← getImg j
+    pure (.delimited (← getList (asList asChar) j "seps") img)
+  | "other" => pure (.other (← getStr j "text").toList)
+  | k => throw s!"unknown source kind {k}"
+
+def srcImg : Src String → List (List String)
+  | .saved _ img => img
+  | .delimited _ img => img
+  | .other _ => []
+
+def jReply : Reply String → Json
+  | .done => jObj [("done", jBool true)]
+  | .missing => jObj [("missing", jBool true)]
+  | .raised => jObj [("loaded", jObj [("raises", jBool true)])]
+  | .loaded l => jObj [("loaded", jObj [("shape", jList jNat l.shape), ("fields", jList jStr l.data)]),
+                       ("name", jOpt (fun n => jStr (String.ofList n)) l.field)]
+
+/-- the image the property demands for the load at position `i`, when it says so and the hypotheses of
+`session_loads` hold for the file's source (`Src.ok`, clean tokens) -/
+def expectedAt (cs : List (Call String)) (i : Nat) : Json :=
+  match cs[i]? with
+  | some (.load p d _) =>
+    match lastPut p (cs.take i) with
+    | some s =>
+      match s.image? d with
+      | some img =>
+        if s.ok && (srcImg s).all (·.all tokenClean) then
+          jObj [("shape", jList jNat [img.length, (img.headD []).length]), ("fields", jList jStr img.flatten)]
+        else .null
+      | none => .null
+    | none => .null
+  | _ => .null
+
 def handle (op : String) (req : Json) : R Json := do
   match op with
+  | "c16.session" =>
+    -- several save / load calls in one process.  `steps`: puts (with the abstract source and `real`, the characters
+    -- found in the file afterwards) and loads (path, delimiter or null, name or null)
+    let steps ← getList (fun j => do
+      match (← getStr j "op") with
+      | "put" =>
+        let src ← fld j "src" >>= asSrc
+        pure ((Call.put (← getNat j "path") src : Call String), some (← getStr j "real").toList)
+      | "load" =>
+        pure ((Call.load (← getNat j "path") (← fld j "delimiter" >>= asOpt asChar)
+                ((← fld j "name" >>= asOpt asStr).map String.toList) : Call String), none)
+      | o => throw s!"unknown step {o}") req "steps"
+    let cs := steps.map (·.1)
+    -- the same calls with every file holding the characters really found in it
+    let csReal := steps.map fun (c, real) => match c, real with
+      | .put p _, some t => Call.put p (.other t)
+      | c, _ => c
+    let spec := sessionSpec tokFmt String.ofList cs
+    let mech := runSession tokFmt String.ofList [] cs
+    let real := runSession tokFmt String.ofList [] csReal
+    let rendered := cs.map fun c => match c with
+      | .put _ s => jStr (String.ofList (s.text tokFmt))
+      | .load _ _ _ => .null
+    pure (jObj [("spec", jList jReply spec), ("mech", jList jReply mech), ("real", jList jReply real),
+                ("rendered", .arr rendered.toArray),
+                ("expected", .arr ((List.range cs.length).map (expectedAt cs)).toArray)])
   | "c16.text" =>
     -- `file`: the characters pewlib's `save` wrote; `tokens`: the values printed with '%.18g' by Python
     let (r, c, img) ← getImg req
